@@ -5,9 +5,12 @@
 From Coq Require Import List NArith.
 Import ListNotations.
 
-(* (request type, context type, view type, view name): one exact-match
+(* (view classifier, request type, context type, view type, view name): one exact-match
    registration position of the adapter registry *)
-Definition slot := (N * N * N * N)%type.
+Definition slot := (N * N * N * N * N)%type.
+
+(* what the cache key of _find_views contains besides (request_iface, context_iface, view_name) *)
+Inductive key_mode := KeyTriad | KeyFull.   (* nothing more | also the view classifier *)
 
 Inductive target := Local | Reread.      (* cache[k] = v  |  registry._view_lookup_cache[k] = v *)
 Inductive clear_mode := Swap | InPlace.  (* self._view_lookup_cache = {}  |  self._view_lookup_cache.clear() *)
